@@ -3,6 +3,7 @@ package gedcom
 import (
 	"fmt"
 	"strings"
+	"sync"
 	"time"
 )
 
@@ -13,6 +14,10 @@ type IndividualNode struct {
 	families                      FamilyNodes
 	spouses                       []*IndividualNode
 	cachedUniqueIDs               *StringSet
+
+	// cacheMutex guards the cached families, spouses and unique identifiers
+	// when they are looked up from several goroutines.
+	cacheMutex sync.Mutex
 }
 
 // SpouseChildren connects a single spouse to a set of children. The children
@@ -28,7 +33,7 @@ type SpouseChildren map[*IndividualNode]ChildNodes
 func newIndividualNode(document *Document, pointer string, children ...Node) *IndividualNode {
 	return &IndividualNode{
 		newSimpleDocumentNode(document, TagIndividual, "", pointer, children...),
-		false, false, nil, nil, nil,
+		false, false, nil, nil, nil, sync.Mutex{},
 	}
 }
 
@@ -82,11 +87,18 @@ func (node *IndividualNode) Spouses() (spouses IndividualNodes) {
 		return nil
 	}
 
+	node.cacheMutex.Lock()
 	if node.cachedSpouses {
+		defer node.cacheMutex.Unlock()
+
 		return node.spouses
 	}
+	node.cacheMutex.Unlock()
 
 	defer func() {
+		node.cacheMutex.Lock()
+		defer node.cacheMutex.Unlock()
+
 		node.spouses = spouses
 		node.cachedSpouses = true
 	}()
@@ -123,11 +135,18 @@ func (node *IndividualNode) Families() (families FamilyNodes) {
 		return nil
 	}
 
+	node.cacheMutex.Lock()
 	if node.cachedFamilies {
+		defer node.cacheMutex.Unlock()
+
 		return node.families
 	}
+	node.cacheMutex.Unlock()
 
 	defer func() {
+		node.cacheMutex.Lock()
+		defer node.cacheMutex.Unlock()
+
 		node.families = families
 		node.cachedFamilies = true
 	}()
@@ -854,7 +873,11 @@ func (node *IndividualNode) UniqueIDs() (nodes []*UniqueIDNode) {
 // commonly unique identifiers such as the FamilySearch ID or UUID generated by
 // some applications.
 func (node *IndividualNode) UniqueIdentifiers() *StringSet {
-	if node.cachedUniqueIDs == nil {
+	node.cacheMutex.Lock()
+	cached := node.cachedUniqueIDs
+	node.cacheMutex.Unlock()
+
+	if cached == nil {
 		// Only publish the set once it is complete. Compare asks for it from
 		// several goroutines and must never see a partially filled set.
 		uniqueIDs := NewStringSet()
@@ -869,10 +892,14 @@ func (node *IndividualNode) UniqueIdentifiers() *StringSet {
 			uniqueIDs.Add(id.String())
 		}
 
+		node.cacheMutex.Lock()
 		node.cachedUniqueIDs = uniqueIDs
+		node.cacheMutex.Unlock()
+
+		return uniqueIDs
 	}
 
-	return node.cachedUniqueIDs
+	return cached
 }
 
 func (node *IndividualNode) resetCache() {
